@@ -66,6 +66,14 @@ func verifDir() string {
 	return "/verif"
 }
 
+// outBase is where out/ and evidence/ are written; scratch runs (selftest) redirect it.
+func outBase() string {
+	if d := os.Getenv("VERIF_SCRATCH_OUT"); d != "" {
+		return d
+	}
+	return verifDir()
+}
+
 func repoDir() string {
 	if d := os.Getenv("VERIF_REPO"); d != "" {
 		return d
@@ -162,7 +170,7 @@ func cmdFn(args []string) int {
 		if o.Status != "discharged" {
 			bad++
 			for _, vc := range o.Failed {
-				fmt.Printf("      %s via %s trace=%s file=%s\n", vc.Verdict, vc.Solver, vc.Trace, vc.File)
+				fmt.Printf("      %s via %s trace=%s file=%s\n        clause: %s\n", vc.Verdict, vc.Solver, vc.Trace, vc.File, vc.Clause)
 				if *verbose {
 					fmt.Println(indent(firstLines(vc.Raw, 60), "        "))
 				}
@@ -321,7 +329,7 @@ func cmdCheck(args []string) int {
 		all = append(all, r.VCs...)
 	}
 	tobs := typeObligations(eng, cfg, *prop)
-	outDir := filepath.Join(vd, "out", *prop)
+	outDir := filepath.Join(outBase(), "out", *prop)
 	os.RemoveAll(outDir)
 	sc := solveCfg{outDir: filepath.Join(outDir, "smt"), quickSec: 3, fullSec: 10, jobs: 16}
 	if *tier == "thorough" {
